@@ -68,9 +68,14 @@ SettingsFor(s, d, n) ==
 
 OverrideValid(s, n) == HasNode(s, n) /\ NodeOf(s, n).override \in {"r1", "r2", "r3"}
 
+\* getNodeList attaches the FIRST valid setting, in list order, that selects the node (several can only be valid while statuses are stale)
+FirstSettingFor(s, d, n) ==
+    LET I == { i \in DOMAIN s.settings : s.settings[i] \in SettingsFor(s, d, n) } IN s.settings[CHOOSE i \in I : \A j \in I : i <= j]
+
 PodUpToDate(s, d, r, p) ==
     /\ p.hash = r.gen
-    /\ (SettingsFor(s, d, p.node) = {} \/ OverrideValid(s, p.node) \/ \E x \in SettingsFor(s, d, p.node) : x.res = p.res \/ x.res = "tmpl")
+    /\ (SettingsFor(s, d, p.node) = {} \/ OverrideValid(s, p.node)
+          \/ LET x == FirstSettingFor(s, d, p.node) IN x.res = p.res \/ x.res = "tmpl")
     /\ p.nodeHash = "ok"
 
 -----------------------------------------------------------------------------
